@@ -29,27 +29,49 @@ let show_fields (fs : fieldval list) : string =
       | FVFloat (FNum q) -> Printf.sprintf "q%.17g" (q_to_float q)
       | FVInt z -> "i" ^ string_of_z z) fs)
 
-type dec = { layout : field list; run : byte list -> ((fieldval list * gerr), unit) Either.t }
+(* the same translated text under the binary64 vocabulary (Gen/BleImplF.v): float fields are bit
+   patterns; compared bit for bit with the implementation (which prints 17 significant digits) *)
+let fieldf_eq (tok : string) (v : FV.fieldval) : bool =
+  match v with
+  | FV.FVFloat b ->
+    if FV.is_nan_bits b then tok = "nan"
+    else String.length tok > 1 && tok.[0] = 'q' &&
+         (try Printf.sprintf "%016Lx" (Int64.bits_of_float (float_of_string (String.sub tok 1 (String.length tok - 1)))) = hex64_of_z b
+          with _ -> false)
+  | FV.FVInt z -> tok = "i" ^ string_of_z z
+
+let fieldsf_match (impl : string) (fs : FV.fieldval list) : bool =
+  let toks = String.split_on_char ',' impl in
+  List.length toks = List.length fs && List.for_all2 fieldf_eq toks fs
+
+let show_fieldsf (fs : FV.fieldval list) : string =
+  String.concat "," (List.map (function
+      | FV.FVFloat b -> if FV.is_nan_bits b then "nan" else "b" ^ hex64_of_z b
+      | FV.FVInt z -> "i" ^ string_of_z z) fs)
+
+type dec = { layout : field list; run : byte list -> ((fieldval list * gerr), unit) Either.t;
+             runf : byte list -> ((FV.fieldval list * gerr), unit) Either.t }
 
 let wrap f fields = fun inp -> match f inp with MOk (r, e) -> Either.Left (fields r, e) | MFault -> Either.Right ()
 
 let decoders : (string * dec) list = [
-  "DecodeAcChargerRecord", { layout = layout_AcCharger; run = wrap decodeAcChargerRecord fields_AcChargerRecord };
-  "DecodeBatteryMonitorRecord", { layout = layout_BatteryMonitor; run = wrap decodeBatteryMonitorRecord fields_BatteryMonitorRecord };
-  "DecodeDcDcConverterRecord", { layout = layout_DcDcConverter; run = wrap decodeDcDcConverterRecord fields_DcDcConverterRecord };
-  "DecodeDcEnergyMeterRecord", { layout = layout_DcEnergyMeter; run = wrap decodeDcEnergyMeterRecord fields_DcEnergyMeterRecord };
-  "DecodeGxDeviceRecord", { layout = layout_GxDevice; run = wrap decodeGxDeviceRecord fields_GxDeviceRecord };
-  "DecodeInverterRecord", { layout = layout_Inverter; run = wrap decodeInverterRecord fields_InverterRecord };
-  "DecodeInverterRsRecord", { layout = layout_InverterRs; run = wrap decodeInverterRsRecord fields_InverterRsRecord };
-  "DecodeLynxSmartBms", { layout = layout_LynxSmartBms; run = wrap decodeLynxSmartBms fields_LynxSmartBms };
-  "DecodeMultiRsRecord", { layout = layout_MultiRs; run = wrap decodeMultiRsRecord fields_MultiRsRecord };
-  "DecodeSmartBatteryProtectRecord", { layout = layout_SmartBatteryProtect; run = wrap decodeSmartBatteryProtectRecord fields_SmartBatteryProtectRecord };
-  "DecodeSmartLithiumRecord", { layout = layout_SmartLithium; run = wrap decodeSmartLithiumRecord fields_SmartLithiumRecord };
-  "DecodeSolarChargeRecord", { layout = layout_SolarCharger; run = wrap decodeSolarChargeRecord fields_SolarChargerRecord };
-  "DecodeVeBusRecord", { layout = layout_VeBus; run = wrap decodeVeBusRecord fields_VeBusRecord };
+  "DecodeAcChargerRecord", { layout = layout_AcCharger; run = wrap decodeAcChargerRecord fields_AcChargerRecord; runf = wrap F.coq_DecodeAcChargerRecord F.fields_AcChargerRecord };
+  "DecodeBatteryMonitorRecord", { layout = layout_BatteryMonitor; run = wrap decodeBatteryMonitorRecord fields_BatteryMonitorRecord; runf = wrap F.coq_DecodeBatteryMonitorRecord F.fields_BatteryMonitorRecord };
+  "DecodeDcDcConverterRecord", { layout = layout_DcDcConverter; run = wrap decodeDcDcConverterRecord fields_DcDcConverterRecord; runf = wrap F.coq_DecodeDcDcConverterRecord F.fields_DcDcConverterRecord };
+  "DecodeDcEnergyMeterRecord", { layout = layout_DcEnergyMeter; run = wrap decodeDcEnergyMeterRecord fields_DcEnergyMeterRecord; runf = wrap F.coq_DecodeDcEnergyMeterRecord F.fields_DcEnergyMeterRecord };
+  "DecodeGxDeviceRecord", { layout = layout_GxDevice; run = wrap decodeGxDeviceRecord fields_GxDeviceRecord; runf = wrap F.coq_DecodeGxDeviceRecord F.fields_GxDeviceRecord };
+  "DecodeInverterRecord", { layout = layout_Inverter; run = wrap decodeInverterRecord fields_InverterRecord; runf = wrap F.coq_DecodeInverterRecord F.fields_InverterRecord };
+  "DecodeInverterRsRecord", { layout = layout_InverterRs; run = wrap decodeInverterRsRecord fields_InverterRsRecord; runf = wrap F.coq_DecodeInverterRsRecord F.fields_InverterRsRecord };
+  "DecodeLynxSmartBms", { layout = layout_LynxSmartBms; run = wrap decodeLynxSmartBms fields_LynxSmartBms; runf = wrap F.coq_DecodeLynxSmartBms F.fields_LynxSmartBms };
+  "DecodeMultiRsRecord", { layout = layout_MultiRs; run = wrap decodeMultiRsRecord fields_MultiRsRecord; runf = wrap F.coq_DecodeMultiRsRecord F.fields_MultiRsRecord };
+  "DecodeSmartBatteryProtectRecord", { layout = layout_SmartBatteryProtect; run = wrap decodeSmartBatteryProtectRecord fields_SmartBatteryProtectRecord; runf = wrap F.coq_DecodeSmartBatteryProtectRecord F.fields_SmartBatteryProtectRecord };
+  "DecodeSmartLithiumRecord", { layout = layout_SmartLithium; run = wrap decodeSmartLithiumRecord fields_SmartLithiumRecord; runf = wrap F.coq_DecodeSmartLithiumRecord F.fields_SmartLithiumRecord };
+  "DecodeSolarChargeRecord", { layout = layout_SolarCharger; run = wrap decodeSolarChargeRecord fields_SolarChargerRecord; runf = wrap F.coq_DecodeSolarChargeRecord F.fields_SolarChargerRecord };
+  "DecodeVeBusRecord", { layout = layout_VeBus; run = wrap decodeVeBusRecord fields_VeBusRecord; runf = wrap F.coq_DecodeVeBusRecord F.fields_VeBusRecord };
 ]
 
-let run () =
+let run (stride : int) =
+  let nf = ref 0 in
   let n = ref 0 and mism = ref 0 and bad7 = ref 0 and bad8 = ref 0 in
   let distinct = Hashtbl.create 10000 in
   (try
@@ -72,6 +94,19 @@ let run () =
            incr mism;
            if !mism <= 15 then Printf.printf "MISMATCH %s translated=%s\n" line
                (match tr with Either.Right () -> "FAULT" | Either.Left (fs, GNil) -> "ok:" ^ show_fields fs | Either.Left (_, e) -> gerr_class e) end;
+         (* (a') the same translated text in binary64: bit-exact *)
+         if tr_ok && !n mod stride = 0 then begin
+           incr nf;
+           let trf = d.runf inp in
+           let trf_ok = (match trf with
+               | Either.Right () -> res = "P" && cap = "0"
+               | Either.Left (fs, GNil) -> String.length res > 3 && String.sub res 0 3 = "ok:" && fieldsf_match (String.sub res 3 (String.length res - 3)) fs
+               | Either.Left (_, e) -> res = gerr_class e) in
+           if not trf_ok then begin
+             incr mism;
+             if !mism <= 15 then Printf.printf "MISMATCH %s binary64=%s\n" line
+                 (match trf with Either.Right () -> "FAULT" | Either.Left (fs, GNil) -> "ok:" ^ show_fieldsf fs | Either.Left (_, e) -> gerr_class e) end
+         end;
          (* (b) the specification *)
          let sp = spec_decode d.layout inp in
          let spec_ok = (match sp with
@@ -105,4 +140,4 @@ let run () =
        | _ -> ()
      done
    with End_of_file -> ());
-  Printf.printf "SUMMARY cases=%d distinct=%d mismatches=%d c07_failures=%d c08_failures=%d\n" !n (Hashtbl.length distinct) !mism !bad7 !bad8
+  Printf.printf "SUMMARY cases=%d distinct=%d mismatches=%d c07_failures=%d c08_failures=%d binary64_compared=%d\n" !n (Hashtbl.length distinct) !mism !bad7 !bad8 !nf
